@@ -40,7 +40,7 @@ def gcounterOps : CrdtOps (GCounter Nat) (Dot Nat) where
   validateMerge := fun _ _ => "ok"
   resetRemove := some GCounter.resetRemove
   eq := some (fun a b => some (decide (a = b)))
-  spec := fun K => "state=" ++ showClock (specClockOf K) ++ " read=" ++ toString (specSum K)
+  spec := fun _ K => "state=" ++ showClock (specClockOf K) ++ " read=" ++ toString (specSum K)
 
 def showPNOp (op : PNOp Nat) : String := (match op.dir with | .pos => "+" | .neg => "-") ++ showDot op.dot
 
@@ -66,7 +66,7 @@ def pncounterOps : CrdtOps (PNCounter Nat) (PNOp Nat) where
   validateMerge := fun _ _ => "ok"
   resetRemove := some PNCounter.resetRemove
   eq := some (fun a b => some (decide (a = b)))
-  spec := fun K =>
+  spec := fun _ K =>
     let P := (K.filter (fun o => o.dir == .pos)).map (·.dot)
     let N := (K.filter (fun o => o.dir == .neg)).map (·.dot)
     "p=" ++ showClock (specClockOf P) ++ " n=" ++ showClock (specClockOf N) ++ " read=" ++
@@ -87,7 +87,7 @@ def gsetOps : CrdtOps (GSet Nat) Nat where
   validateOp := fun _ _ => "ok"
   validateMerge := fun _ _ => "ok"
   eq := some (fun a b => some (decide (a = b)))
-  spec := fun K => "read=" ++ showNats (sortDedupNat K) ++ " has1=" ++ showBool (K.contains 1)
+  spec := fun _ K => "read=" ++ showNats (sortDedupNat K) ++ " has1=" ++ showBool (K.contains 1)
 
 def showLWWV : Except LWWValidation Unit → String
   | .ok _ => "ok"
@@ -126,7 +126,7 @@ def lwwOps : CrdtOps (LWWReg Nat Nat) (LWWReg Nat Nat) where
   validateOp := fun s op => showLWWV (s.validateOp op)
   validateMerge := fun s o => showLWWV (s.validateMerge o)
   eq := some (fun a b => some (decide (a = b)))
-  spec := specLWW
+  spec := fun _ K => specLWW K
 
 def maxregOps : CrdtOps (MaxReg Nat) Nat where
   init := ⟨0⟩
@@ -143,7 +143,7 @@ def maxregOps : CrdtOps (MaxReg Nat) Nat where
   validateOp := fun _ _ => "ok"
   validateMerge := fun _ _ => "ok"
   eq := some (fun a b => some (decide (a = b)))
-  spec := fun K => "read=" ++ toString (K.foldl max 0)
+  spec := fun _ K => "read=" ++ toString (K.foldl max 0)
 
 def minregOps : CrdtOps (MinReg Nat) Nat where
   init := ⟨1000⟩
@@ -160,6 +160,6 @@ def minregOps : CrdtOps (MinReg Nat) Nat where
   validateOp := fun _ _ => "ok"
   validateMerge := fun _ _ => "ok"
   eq := some (fun a b => some (decide (a = b)))
-  spec := fun K => "read=" ++ toString (K.foldl min 1000)
+  spec := fun _ K => "read=" ++ toString (K.foldl min 1000)
 
 end Driver
